@@ -15,11 +15,17 @@ RULE = ("txnscope-ops: random op sequences (begin / append / state write / commi
         "checked at the crash state and again after restart + drain. engine-faults: exception after the event append / in "
         "mark_message_processed inside the completion transaction, optimistic-lock conflict (version bumped through a second connection "
         "just before the handler's store_stage) for CompleteTask, CompleteStage, SkipStage. A case is distinct by (op list) resp. "
-        "(workflow spec, crash index | fault) and non-trivial when it contains a rollback, a crash, a nested block or an injected fault.")
+        "(workflow spec, crash index | fault) and non-trivial when it contains a rollback, a crash, a nested block or an injected fault. "
+        "PLUS synthetic-stage workloads (IMPLEMENTATION-ONLY; signatures prefixed synth:): 8 fixed workflows with pre-declared STAGE_BEFORE / STAGE_AFTER children (succeeding, a failing sibling "
+        "before-stage, failed parent with an after-stage, task-less parent, FAILED_CONTINUE / TERMINAL / SKIPPED / CANCELED / STOPPED children, a disabled parent) + generated ones through the same "
+        "engine-crash suite (quick: every 5th commit index, offset = seed; thorough: every index) and engine-faults suite (quick: 2 fixed + 1 generated, first occurrence of each fault; thorough: all, "
+        "first and second), same `consistency` oracle.")
 ASSUMPTIONS = [
     "single worker thread per scope (the scope is thread-local); the event store uses the same connection string as the workflow store",
     "a process kill = a BaseException raised by the k-th real commit + rebuilding every engine object from the file",
     "the bus subscriber is synchronous (SubscriptionMode.SYNC)",
+    "synthetic-stage workloads: 'completed by the regular task- or stage-completion step' is decided per row by the delivery that wrote it (evsrc writer attribution): a parent that "
+    "ContinueParentStage marks failed (no event is recorded at all, nothing to commit together) is outside this property and counted under the tag outside-C13:...; it is C12's finding S10",
 ]
 TRUSTED_BASE = [
     "events/txn_scope.py, EventRecorderBase._record and SqliteWorkflowStore.transaction() are modelled by hand (Stab.TxnScope), tied by Mode A on random op sequences",
@@ -294,6 +300,13 @@ def consistency(ctx, env, robj: dict, where: str, crashed: bool, lossy: bool = F
         elif "s" in ref and "k" not in ref and st in ("SUCCEEDED", "FAILED_CONTINUE", "TERMINAL", "STOPPED"):
             kinds = ("stage.completed", "stage.failed")
         if kinds:
+            ident = next((i for w in env.workflows for i in [*w["stage_ids"], *w["task_ids"]] if env.ref(i) == ref), None)
+            if "k" not in ref and env.writer_of(ident, st) == "ContinueParentStage":
+                # the property speaks of completions "committed by the regular task- or stage-completion step"; a parent that
+                # ContinueParentStage marks failed because a before / after-stage failed is written by another step, which
+                # records no event at all (nothing to commit together) - a C12 matter (replay), counted here
+                ctx.tag("outside-C13:parent-failed-by-ContinueParentStage(no-event-recorded)")
+                continue
             if not any(r["event_type"] in kinds and r["data"].get("status") == st for r in by_ent.get(ref, [])):
                 how = ""
                 if "k" not in ref:
@@ -377,6 +390,35 @@ ENGINE_SPECS = [
 ]
 
 
+# synthetic before / after stages (implementation-only workloads: the txn-scope model says nothing about them; the same
+# `consistency` oracle is applied, children are ordinary stage refs w0s<idx> after the top-level ones)
+SYNTH_ENGINE_SPECS = [
+    [{"tasks": ["S"], "synth": [{"owner": "B", "tasks": ["S"]}, {"owner": "A", "tasks": ["S"]}]}],
+    [{"tasks": ["S"], "synth": [{"owner": "B", "tasks": ["S"]}, {"owner": "B", "tasks": ["T"]}]}, {"reqs": [0], "tasks": ["S"]}],
+    [{"tasks": ["T"], "synth": [{"owner": "A", "tasks": ["S"]}]}],
+    [{"tasks": [], "synth": [{"owner": "B", "tasks": ["F"]}, {"owner": "A", "tasks": ["S"]}]}, {"tasks": ["S"]}],
+    [{"tasks": ["S"], "cont": True, "synth": [{"owner": "A", "tasks": ["T"]}, {"owner": "A", "tasks": ["S"]}]}],
+    [{"tasks": ["S", "S"], "synth": [{"owner": "B", "tasks": ["K"]}, {"owner": "A", "tasks": ["C"]}]}],
+    [{"tasks": ["S"]}, {"reqs": [0], "enabled": False, "synth": [{"owner": "B", "tasks": ["S"]}]}, {"reqs": [1], "tasks": ["S"], "synth": [{"owner": "A", "tasks": ["P"]}]}],
+    [{"tasks": ["S"], "synth": [{"owner": "A", "tasks": ["F"]}, {"owner": "A", "tasks": ["S"]}]}],     # FAILED_CONTINUE after-stage: finishes its parent itself
+]
+
+
+def gen_synth_engine_spec(rng) -> list[dict]:
+    n = rng.choice([1, 1, 2])
+    spec = []
+    for i in range(n):
+        sp: dict[str, Any] = {"reqs": [i - 1] if i and rng.random() < 0.5 else [], "tasks": [rng.choice("SSSSSTF") for _ in range(rng.choice([0, 1, 1, 2]))]}
+        if rng.random() < 0.2:
+            sp["cont"] = True
+        spec.append(sp)
+    par = rng.randrange(n)
+    nb, na = rng.choice([(1, 0), (0, 1), (1, 1), (2, 0), (0, 2), (1, 1)])
+    spec[par]["synth"] = [{"owner": "B", "tasks": [rng.choice("SSSSTFKC")]} for _ in range(nb)] + \
+                         [{"owner": "A", "tasks": [rng.choice("SSSSTFKC")]} for _ in range(na)]
+    return spec
+
+
 def gen_engine_spec(rng) -> list[dict]:
     from harness.props.c12 import gen_spec
 
@@ -387,7 +429,9 @@ def gen_engine_spec(rng) -> list[dict]:
     return spec
 
 
-def crash_suite(ctx, specs: list[list[dict]], work: Path) -> None:
+def crash_suite(ctx, specs: list[list[dict]], work: Path, stride: int = 1, offset: int = 0) -> None:
+    """kill at EVERY commit index (stride 1); the synthetic-stage workloads of the quick tier use every `stride`-th index,
+    starting at `offset` (which rotates with the seed), so that all of them fit into the budget"""
     from harness.evsrc import CTL, Crash, Env
 
     for spec in specs:
@@ -405,7 +449,7 @@ def crash_suite(ctx, specs: list[list[dict]], work: Path) -> None:
             ctx.tag(f"max-scope-depth:{watch.stop()}")
             env.close()
         ctx.count(["crash-free", spec], nontrivial=False)
-        for k in range(total):
+        for k in range(offset % stride if stride > 1 else 0, total, stride):
             robj = {"suite": "engine-crash", "spec": spec, "crash_at": k}
             env = Env(work, name="c13")
             try:
@@ -446,7 +490,7 @@ def _inside_txn_handler(handler: str) -> bool:
         return False
 
 
-def fault_suite(ctx, specs: list[list[dict]], work: Path, only: dict | None = None) -> None:
+def fault_suite(ctx, specs: list[list[dict]], work: Path, only: dict | None = None, nths: tuple = (1, 2)) -> None:
     """Injected failures inside / around the completion transaction."""
     from stabilize.events.store.sqlite.store import SqliteEventStore
     from stabilize.persistence.sqlite.transaction import AtomicTransaction
@@ -454,7 +498,7 @@ def fault_suite(ctx, specs: list[list[dict]], work: Path, only: dict | None = No
     from harness.evsrc import Env
 
     faults = [{"kind": k, "handler": h, "nth": n} for k in ("mark", "append", "append-before", "cas") for h in ("CompleteTask", "CompleteStage", "SkipStage", "CompleteWorkflow")
-              for n in (1, 2)]
+              for n in nths]
     if only is not None:
         faults = [only]
     for spec in specs:
@@ -539,6 +583,24 @@ def _run(ctx, n_ops: int, n_crash_specs: int, n_fault_specs: int) -> None:
         crash_suite(ctx, specs, work)
         fspecs = ENGINE_SPECS[:6] + [gen_engine_spec(ctx.rng) for _ in range(n_fault_specs)]
         fault_suite(ctx, fspecs, work)
+        # synthetic before / after stages: same suites, same oracle, implementation-only (signatures prefixed synth:)
+        import time
+
+        t0 = time.time()
+        from harness.synth_suites import PrefixCtx
+
+        sctx = PrefixCtx(ctx)
+        pick = ctx.rng.sample(range(len(SYNTH_ENGINE_SPECS)), len(SYNTH_ENGINE_SPECS))
+        before = ctx.evaluations
+        # quick: every fixed workload + one generated, killed at every 5th commit index (offset = seed); thorough: every index
+        sspecs = list(SYNTH_ENGINE_SPECS) + [gen_synth_engine_spec(ctx.rng) for _ in range(max(1, n_crash_specs // 4))]
+        crash_suite(sctx, sspecs, work, stride=1 if ctx.thorough else 5, offset=ctx.seed)
+        n_fixed_fault = len(SYNTH_ENGINE_SPECS) if ctx.thorough else 2
+        sfspecs = [SYNTH_ENGINE_SPECS[i] for i in pick[:n_fixed_fault]] + [gen_synth_engine_spec(ctx.rng) for _ in range(max(1, n_fault_specs // 2))]
+        fault_suite(sctx, sfspecs, work, nths=(1, 2) if ctx.thorough else (1,))
+        ctx.extra["synthetic_stage_workloads"] = {"model": "none (implementation-only: the consistency oracle on the real engine)",
+                                                  "crash_specs": len(sspecs), "fault_specs": len(sfspecs),
+                                                  "cases": ctx.evaluations - before, "wall_s": round(time.time() - t0, 1)}
     finally:
         shutil.rmtree(work, ignore_errors=True)
 
